@@ -7,7 +7,7 @@ CONSTANTS
   CGS = 5
   Depth = 9
   MaxReplies = 5
-  MaxReplies2 = 5
+  MaxReplies2 = 3
   MaxDup = 1
   MaxForeign = 1
   MaxLate = 1
